@@ -33,8 +33,10 @@ func NewNumber(id *token.Token) (ExpNode, error) {
 		}
 		n, err = strconv.ParseUint(nstring, 16, 64)
 	} else {
-		n, err = strconv.ParseUint(nstring, 10, 64)
-		// If an integer is too big let's make it a float
+		// A decimal integer that does not fit a (signed) Lua integer denotes a float
+		var sn int64
+		sn, err = strconv.ParseInt(nstring, 10, 64)
+		n = uint64(sn)
 		if err != nil {
 			f, err := strconv.ParseFloat(nstring, 64)
 			if err == nil || f != 0 {
